@@ -63,6 +63,13 @@ pub fn ws_text(rng: &mut ChaCha8Rng, max_len: usize, exotic: bool) -> String {
         } else if r < 53 && exotic {
             s.push('\u{200D}');
             s.push(pick(rng, LETTERS));
+            if rng.random_range(0..40) == 0 {
+                // a grapheme cluster of more than 255 bytes ("zalgo" text): base letter + 130 combining marks
+                s.push('e');
+                for _ in 0..130 {
+                    s.push('\u{301}');
+                }
+            }
         } else if r < 80 {
             s.push(pick(rng, &LETTERS[..4]));
         } else {
@@ -90,6 +97,12 @@ pub fn clean_text(rng: &mut ChaCha8Rng, max_words: usize, exotic: bool) -> Strin
             } else {
                 s.push(pick(rng, LETTERS));
                 s.push(pick(rng, MARKS));
+                if rng.random_range(0..60) == 0 {
+                    // a grapheme cluster of more than 255 bytes
+                    for _ in 0..130 {
+                        s.push('\u{301}');
+                    }
+                }
             }
         }
         words.push(s);
